@@ -250,7 +250,12 @@ Coerce(x, T) ==
        ELSE TupleV([j \in 1..Len(T.elts) |-> Coerce(x.v[j], T.elts[j])])
   ELSE IF T.t = "bool" THEN (IF x.t.t = "bool" THEN x ELSE Unmod("coerce-to-bool"))
   ELSE IF x.t.t = "bool" \/ x.t.t = "tuple" THEN Unmod("coerce-from-bool-or-tuple")
-  ELSE IF T.t = "fixed" /\ x.t.t = "fixed" /\ ~SameLayout(T, x.t) THEN Unmod("qfixed-mixed-layout")
+  \* a fixed point value in another layout is the same number: exact when the target has at least as many fractional
+  \* bits (or the dropped ones are zero); leaving the integer range is what Norm accounts for
+  ELSE IF T.t = "fixed" /\ x.t.t = "fixed" /\ ~SameLayout(T, x.t) THEN
+       (IF T.f >= x.t.f THEN Norm(T, x.v * P2(T.f - x.t.f), x.det, FALSE, x.trig)
+        ELSE IF x.v % P2(x.t.f - T.f) = 0 THEN Norm(T, x.v \div P2(x.t.f - T.f), x.det, FALSE, x.trig)
+        ELSE Unmod("coerce-fixed-drops-fraction-bits"))
   ELSE IF (T.t = "fixed") # (x.t.t = "fixed") THEN Unmod("coerce-fixed-int")
   ELSE Norm(T, x.v, x.det, FALSE, x.trig)
 
